@@ -10,6 +10,7 @@ mod tk;
 mod tkgen;
 mod gs;
 mod gsgen;
+mod ops;
 
 use common::*;
 use std::io::Write;
@@ -27,6 +28,11 @@ impl World for gs::GsWorld {
         gs::GsWorld::exec(self, toks)
     }
 }
+impl World for ops::OpsWorld {
+    fn exec(&mut self, toks: &[&str]) -> (String, String) {
+        ops::OpsWorld::exec(self, toks)
+    }
+}
 impl World for gw::GwWorld {
     fn exec(&mut self, toks: &[&str]) -> (String, String) {
         gw::GwWorld::exec(self, toks)
@@ -38,6 +44,7 @@ pub fn new_world(cluster: &str) -> Box<dyn World> {
         "gw" => Box::new(gw::GwWorld::new()),
         "tk" => Box::new(tk::TkWorld::new()),
         "gs" => Box::new(gs::GsWorld::new()),
+        "op" => Box::new(ops::OpsWorld::new()),
         other => panic!("unknown cluster {other}"),
     }
 }
@@ -98,6 +105,7 @@ fn main() {
                 "C13" => gwgen::gen_c13(&mut run, seed, thorough),
                 "C12" => tkgen::gen_c12(&mut run, seed, thorough),
                 "C14" => gsgen::gen_c14(&mut run, seed, thorough),
+                "C17" => ops::gen_c17(&mut run, seed, thorough),
                 other => {
                     eprintln!("no generator for {other}");
                     std::process::exit(2);
